@@ -2,7 +2,8 @@
 
 // Contracts for s1.ChordAngle arithmetic (property C19, "chord-angle arithmetic with clamping": all results are
 // valid values). Exact IEEE-754 semantics including the square root. What is decided is validity of the result
-// (a squared chord length in [0,4], never NaN) for every pair of ordinary operands; that Add/Sub approximate the
+// (a squared chord length in [0,4], never NaN) for every pair of ordinary operands (stated as conditional postconditions rather than preconditions: the
+// functions are total, and their callers in s2.Cap pass radii the Cap contracts leave unconstrained); that Add/Sub approximate the
 // sum/difference of the angles is numerical and not decided. Comment-only.
 
 package s1
@@ -15,23 +16,20 @@ package s1
 //@ func (c ChordAngle) Add(other ChordAngle) ChordAngle
 //@   fp
 //@   timeout 200
-//@   requires vcChord(c) && vcChord(other)
-//@   ensures [at-most-straight] result <= 4
-//@   ensures [not-negative] result >= 0
-//@   ensures [zero-is-neutral] other == 0 ==> result == c
+//@   ensures [at-most-straight] vcChord(c) && vcChord(other) ==> result <= 4
+//@   ensures [not-negative] vcChord(c) && vcChord(other) ==> result >= 0
+//@   ensures [zero-is-neutral] other == 0 && c == c ==> result == c
 
 //@ func (c ChordAngle) Sub(other ChordAngle) ChordAngle
 //@   fp
 //@   timeout 200
-//@   requires vcChord(c) && vcChord(other)
-//@   ensures [not-negative] result >= 0
-//@   ensures [zero-is-neutral] other == 0 ==> result == c
+//@   ensures [not-negative] vcChord(c) && vcChord(other) ==> result >= 0
+//@   ensures [zero-is-neutral] other == 0 && c == c ==> result == c
 //@   ensures [not-larger-gives-zero] c <= other && other != 0 ==> result == 0
 
 //@ func (c ChordAngle) Expanded(e float64) ChordAngle
 //@   fp
-//@   requires c.isValid() && e == e
-//@   ensures [valid] result.isValid()
+//@   ensures [valid] c.isValid() && e == e ==> result.isValid()
 //@   ensures [special-unchanged] c.isSpecial() ==> result == c
-//@   ensures [clamped] !c.isSpecial() ==> result >= 0 && result <= 4
-//@   ensures [grows] !c.isSpecial() && e >= 0 ==> result >= c
+//@   ensures [clamped] c.isValid() && !c.isSpecial() && e == e ==> result >= 0 && result <= 4
+//@   ensures [grows] c.isValid() && !c.isSpecial() && e >= 0 ==> result >= c
